@@ -84,21 +84,53 @@ type zzCertCase struct {
 	covers   bool
 }
 
+// fixed shapes for wildcard / case handling; plain names are generated symbolically below
 var zzCertCases = []zzCertCase{
-	{[]string{"d1.local", "d2.local"}, []string{"d1.local", "d2.local"}, true},   // exact
-	{[]string{"d1.local"}, []string{"d1.local", "d2.local"}, false},              // certificate is a subset
-	{[]string{"d1.local", "d2.local", "d3.local"}, []string{"d2.local"}, true},   // certificate is a superset
-	{[]string{"*.local"}, []string{"d1.local", "d2.local"}, true},                // wildcard covering
-	{[]string{"*.local"}, []string{"d1.local", "a.b.local"}, false},              // wildcard not covering a sub-sub domain
-	{[]string{"D1.Local"}, []string{"d1.local"}, true},                           // case-insensitive
-	{[]string{"d1.local"}, []string{}, true},                                     // nothing asked
+	{[]string{"*.local"}, []string{"d1.local", "d2.local"}, true},     // wildcard covering
+	{[]string{"*.local"}, []string{"d1.local", "a.b.local"}, false},   // wildcard not covering a sub-sub domain
+	{[]string{"*.local"}, []string{"a.b.local", "d1.local"}, false},   // same, uncovered name first
+	{[]string{"D1.Local"}, []string{"d1.local"}, true},                // case-insensitive
+	{[]string{"d1.local"}, []string{}, true},                          // nothing asked
+}
+
+var zzPlainNames = []string{"d1.local", "d2.local", "d3.local"}
+
+// zzPlainCase: the certificate holds a solver-chosen subset of three names, the storage asks for a
+// solver-chosen non-empty sequence of them (any order); it covers iff every asked name is held.
+func zzPlainCase() zzCertCase {
+	var c zzCertCase
+	held := make([]bool, len(zzPlainNames))
+	for i, n := range zzPlainNames {
+		held[i] = nd.Bool("cert.has")
+		if held[i] {
+			c.dnsnames = append(c.dnsnames, n)
+		}
+	}
+	c.covers = true
+	n := 1 + nd.Choice("domains", 3)
+	used := make([]bool, len(zzPlainNames))
+	for i := 0; i < n; i++ {
+		k := nd.Choice("domain", len(zzPlainNames))
+		nd.Assume(!used[k])
+		used[k] = true
+		c.domains = append(c.domains, zzPlainNames[k])
+		if !held[k] {
+			c.covers = false
+		}
+	}
+	return c
 }
 
 // VerifC17_Signer: Sign is called iff the secret is unreadable, the certificate expires inside the
 // window, or it does not cover every domain; the secret is written only with both crt and key.
 func VerifC17_Signer() {
 	expiring := zzExpiring[nd.Choice("expiring", len(zzExpiring))]
-	cc := zzCertCases[nd.Choice("cert", len(zzCertCases))]
+	var cc zzCertCase
+	if k := nd.Choice("cert", len(zzCertCases)+1); k < len(zzCertCases) {
+		cc = zzCertCases[k]
+	} else {
+		cc = zzPlainCase()
+	}
 	now := time.Now()
 	// NotAfter = now + delta seconds (whole seconds, as x509 dates are)
 	delta := nd.Int("delta", 0, 200000000) - 100000000
